@@ -1172,14 +1172,15 @@ def run(ctx):
     import matplotlib
     matplotlib.use("Agg")
     plan = [  # stratum, generator, patterns, cases quick / thorough, time budget quick / thorough (s)
-        ("grid2", lambda r, p: gen_grid(r, False, p), CELL_PATTERNS, 36, 400, 8.0, 60.0),
-        ("grid1", lambda r, p: gen_grid(r, True, p), CELL_PATTERNS, 40, 400, 4.0, 35.0),
-        ("cvt1", gen_cvt1, CELL_PATTERNS, 36, 360, 4.0, 40.0),
-        ("cvt2", gen_cvt2, CELL_PATTERNS, 26, 260, 4.0, 45.0),
-        ("sliding", gen_sliding, POINT_PATTERNS, 30, 300, 4.0, 40.0),
-        ("prox", gen_prox, POINT_PATTERNS, 26, 260, 4.0, 40.0),
-        ("parallel", gen_parallel, POINT_PATTERNS, 22, 220, 5.0, 55.0),
+        ("grid2", lambda r, p: gen_grid(r, False, p), CELL_PATTERNS, 36, 600, 6.5, 55.0),
+        ("grid1", lambda r, p: gen_grid(r, True, p), CELL_PATTERNS, 40, 600, 3.0, 35.0),
+        ("cvt1", gen_cvt1, CELL_PATTERNS, 36, 550, 3.5, 40.0),
+        ("cvt2", gen_cvt2, CELL_PATTERNS, 26, 400, 3.5, 45.0),
+        ("sliding", gen_sliding, POINT_PATTERNS, 30, 450, 3.0, 40.0),
+        ("prox", gen_prox, POINT_PATTERNS, 26, 400, 3.0, 35.0),
+        ("parallel", gen_parallel, POINT_PATTERNS, 22, 320, 4.5, 50.0),
     ]
+    deadline = 34.0 if ctx.quick else 330.0  # wall seconds since the start of the check (build + audit included)
     for name, gen, pats, nq, nt, bq, bt in plan:
         counter = [0]
 
@@ -1188,8 +1189,9 @@ def run(ctx):
             pat = pats[counter[0] % len(pats)]
             counter[0] += 1
             return gen(rng, pat)
-        ctx.explore(name, gen_k, run_case, ctx.n(nq, nt), nontrivial=nontrivial,
-                    time_budget=bq if ctx.quick else bt)
+        # corpus cases of the stratum are replayed whatever the budget
+        budget = max(0.5, min(bq if ctx.quick else bt, deadline - ctx.elapsed()))
+        ctx.explore(name, gen_k, run_case, ctx.n(nq, nt), nontrivial=nontrivial, time_budget=budget)
     for k, v in sorted(STATS.items()):
         ctx.count("stat:" + k, v)
     try:
